@@ -67,8 +67,11 @@ def is_enharmonic(note1, note2):
 
 
 def is_valid_note(note):
-    """Return True if note is in a recognised format. False if not."""
-    if note[0] not in _note_dict:
+    """Return True if note is in a recognised format. False if not.
+
+    The empty string is not a note.
+    """
+    if not note or note[0] not in _note_dict:
         return False
     for post in note[1:]:
         if post != "b" and post != "#":
